@@ -38,8 +38,9 @@ fn main() {
 	}
 	let runs = args.num("runs", 160, 8000);
 	let with_serial = args.prop == "C12";
+	let serial_roundtrip_only = prof.onchain;
 	let with_mup = args.prop == "C19";
-	let make = move || -> Vec<Box<dyn Monitor>> { let mut v: Vec<Box<dyn Monitor>> = vec![Box::new(CommitMonitor::new()), Box::new(RevokeMonitor::new()), Box::new(OrderMonitor::new()), Box::new(RestartMonitor::new()), Box::new(PayMonitor::new())]; if with_serial { v.push(Box::new(SerialMonitor::new())); } v.push(Box::new(OnchainMonitor::new())); if with_mup { v.push(Box::new(MupMonitor::new())); } v };
+	let make = move || -> Vec<Box<dyn Monitor>> { let mut v: Vec<Box<dyn Monitor>> = vec![Box::new(CommitMonitor::new()), Box::new(RevokeMonitor::new()), Box::new(OrderMonitor::new()), Box::new(RestartMonitor::new()), Box::new(PayMonitor::new())]; if with_serial { let mut sm = SerialMonitor::new(); sm.roundtrip_only = serial_roundtrip_only; v.push(Box::new(sm)); } v.push(Box::new(OnchainMonitor::new())); if with_mup { v.push(Box::new(MupMonitor::new())); } v };
 	let only: Option<u64> = args.kv.get("only_run").map(|s| s.parse().unwrap());
 	let mode = args.kv.get("mode").cloned().unwrap_or_else(|| "random".to_string());
 	let mut i = args.shard;
